@@ -56,7 +56,8 @@ def check_c15(sim, faulty):
             if ent is not None and ent[2].devicetype != 0:
                 dt = ent[2].devicetype
                 want = (who, 16, (EDT_HI << 8) | dt)
-                if last_wire != want:
+                # a send-twice frame the hasseb driver writes twice counts once
+                if last_wire != want and last_wire != (who, bits, value):
                     c = sim.callers[who] if isinstance(who, int) and who < len(sim.callers) else None
                     kind = c.kind if c else "send"
                     pr.append(("edt:%s:%s" % (drv, kind),
